@@ -1,3 +1,5 @@
+pub mod c05;
+pub mod c06;
 pub mod c08;
 pub mod c09;
 pub mod c10;
@@ -12,6 +14,8 @@ use crate::runner::Prop;
 
 pub fn sweep_prop(id: &str) -> Option<Box<dyn Prop>> {
     Some(match id {
+        "C05" => Box::new(c05::C05::new()),
+        "C06" => Box::new(c06::C06::new()),
         "C08" => Box::new(c08::C08::new()),
         "C09" => Box::new(c09::C09::new()),
         "C10" => Box::new(c10::C10::new()),
